@@ -39,30 +39,51 @@ TABLE_CONSTRUCTS = [
                     "cs_exp_compact_code", "cs_exp_diff_code", "cs_exp_dist_code", "cs_exp_kth_code", "cs_exp_radius_code",
                     "cs_agent_setter_code", "cs_exp_skeleton"]
 ENUM_ALWAYS = False
-RULE = ("histories = one continuous space (legacy: 2-D; experimental: 2-D/3-D, initial capacity in {0,1,2,3,10,100}), bounds "
-        "with negative / non-unit origins, torus on/off, then <= 30 operations: place/add, move (in bounds, wrapping, "
-        "rejected), remove, radius / k-nearest / distance / heading / difference-vector queries, with query-move-query "
-        "patterns, queries on the empty space, k = 1..n, radii equal to an exact distance; positions handed over as int "
-        "tuples, float tuples, lists and arrays; all numbers multiples of 1/16. non-trivial = >= 3 executed operations of "
-        "which one is a query with a non-empty answer; distinct = by SHA1 of the history")
+RULE = ("histories = one continuous space (legacy mesa.space.ContinuousSpace: 2-D; experimental ContinuousSpace: 2-D/3-D, initial "
+        "capacity in {0,1,2,3,10,100}), bounds with negative / non-unit origins and axes as thin as 1/16, torus on/off, then <= 30 "
+        "operations (a few histories: 104 agents past the default capacity): place/add (also onto another agent, also of an "
+        "already placed legacy agent), move (in bounds, wrapping, rejected), remove_agent, agent.remove(), "
+        "model.remove_all_agents(), Agent.remove() of a legacy agent, radius / k-nearest / distance / heading / "
+        "difference-vector queries incl. the agents=[...] forms (empty list, repeats) and the two agent-side neighbour wrappers, "
+        "query-move-query patterns, queries on the empty space, k = 1..n, radius 0 / equal to an exact distance / 1000x the "
+        "space, include_center both ways at coincident agents; positions as int / float / NumPy-scalar tuples, lists, float and "
+        "integer arrays; per-history variety bits (heterogeneous and falsy agent classes, keyword spelling + repeated queries, "
+        "shared argument objects, a second unrelated space in the process).  This stream uses multiples of 1/16 and is also "
+        "evaluated by the Gallina model; a second, oracle-only stream uses arbitrary binary64 numbers.  non-trivial = >= 3 "
+        "executed operations of which one is a query with a non-empty answer; distinct = by SHA1 of the history")
 TRUSTED_BASE = [
-    "Coq 8.16.1 kernel (coqc); vm_compute used for the examples, the finite facts and for evaluating the model in the correspondence",
-    "no axioms: Print Assumptions reports 'Closed under the global context' for every C10 / C18_continuous theorem",
-    "harness/tables/continuous_code.py + harness/pyexpr.py (code-level T1): 17 helper functions / expressions of the two classes translated to Gallina on every run (per-axis reading of the NumPy expressions, sqrt read as the squared quantity), 2 verbatim statement skeletons for the glue",
-    "harness/props/C10.py driver+observer and the Gallina literal printer (T2, differential testing, not a proof)",
+    "Coq 8.16.1 kernel (coqc); vm_compute used for the Examples, the finite facts and for evaluating the model in the correspondence",
+    "no axioms: Print Assumptions reports 'Closed under the global context' for each of the 59 theorems of Properties/C10.v "
+    "(55 C10_*, 4 C18_continuous_*)",
+    "harness/tables/continuous_code.py + harness/pyexpr.py (code-level T1): 17 functions / expressions of the two classes and of "
+    "the position setter translated to Gallina on every run (per-axis reading of the NumPy expressions, sqrt read as the squared "
+    "quantity, int(round(0.2 n)) as (2n+5)/10), 2 statement skeletons for the glue compared modulo local names, message texts, "
+    "docstrings and formatting; 15 bridge lemmas model function = translated function in Proofs/ContBridge.v",
+    "harness/props/C10.py drivers, observers and the Gallina literal printer (T2, differential testing, not a proof)",
     "Model/ContLegacy.v and Model/ContExp.v are hand transcriptions of mesa/space.py:ContinuousSpace and of "
-    "mesa/experimental/continuous_space/{continuous_space,continuous_space_agents}.py; dict = insertion-ordered association "
-    "list, ndarray = list of rows, uninitialised rows = a placeholder that is never read (theorem)",
-    "binary64 arithmetic only on dyadic inputs (multiples of 1/16, |x| < 2^12) where + - * abs min % are exact and sqrt is "
-    "monotone and correctly rounded; NumPy argpartition / scipy cdist as legality-checked outcome / exact arithmetic",
+    "mesa/experimental/continuous_space/{continuous_space,continuous_space_agents}.py (as repaired); dict = insertion-ordered "
+    "association list, ndarray = list of rows, uninitialised rows = a placeholder that is never read (theorem), model._agents "
+    "= a list of ids",
+    "binary64 arithmetic in the model-checked stream only on dyadic inputs (multiples of 1/16, |x| < 2^12) where + - * abs min % "
+    "are exact and sqrt is monotone and correctly rounded; NumPy argpartition as a legality-checked outcome, scipy cdist as "
+    "exact Euclidean arithmetic on those inputs",
     "Uint63 primitive hash only in scratch Cases files, never under a theorem",
 ]
 ASSUMPTIONS = [
-    "coordinates, radii, bounds are multiples of 1/16 of modest size; nothing is claimed about arbitrary binary64 inputs",
-    "query points on a torus lie inside the closed bounds or (queries against agents) at most half a unit outside; get_distance / get_heading on a torus are asked for points of the space only (the code's min(d, size-d) is the toroidal distance only up to 1.5 periods apart)",
-    "an agent is placed in one space at most once at a time; positions have the dimension of the space",
-    "get_nearest_neighbors is not issued when another agent sits exactly on the asking agent (argpartition tie)",
-    "k-nearest answers are compared as sets: which k agents argpartition returns among ties is an input to the model",
+    "model-checked stream: coordinates, radii, bounds are multiples of 1/16 of modest size; arbitrary binary64 inputs are covered "
+    "by the oracle-only stream (bit-exact positions, 1e-9 relative distances, radius answers away from |d - r| <= 1e-6), not "
+    "by theorems",
+    "query points on a torus lie inside the closed bounds or (queries against agents) at most min(half a unit, half the thinnest "
+    "axis) outside; get_distance / get_heading on a torus are asked for points of the space only (the code's min(d, size - d) "
+    "is the toroidal distance only up to 1.5 periods apart)",
+    "positions have the dimension of the space; every axis has positive extent; radii >= 0 for the agent-side wrapper "
+    "(get_neighbors_in_radius(r < 0) raises IndexError on its empty mask: outside the quantifier, not issued)",
+    "k-nearest answers are compared as sets: which agents argpartition returns among ties is an input to the model, checked for "
+    "legality; get_nearest_neighbors may return k+1 agents when >= k+1 others sit exactly on the asker (C10_nearest_neighbors_boundary)",
+    "'agents placed and not removed' is read as removed FROM THE SPACE: Agent.remove() of a plain agent leaves its legacy-space "
+    "entry in place (C10_legacy_agent_remove_leaves_space_entry); callers mutating a position array after handing it to the "
+    "legacy space (which stores the object itself) are outside the statement",
+    "not modelled: AgentSet itself, cdist keyword arguments (non-Euclidean metrics), the experimental _index_to_agent (written, never read)",
 ]
 E_OOB, E_NOTIN, E_INDEX = 1, 2, 3
 SEP = -9
@@ -111,7 +132,7 @@ def _bounds(rng, nd):
     bs = []
     for _ in range(nd):
         lo = rng.choice([0, 0, 16, -16, -48, 8, -40, 32, -5, 3])
-        size = rng.choice([16, 32, 48, 64, 80, 40, 24, 100, 128])
+        size = rng.choice([16, 32, 48, 64, 80, 40, 24, 100, 128, 16, 1, 2])      # 1, 2: a 1/16- or 1/8-wide axis
         bs.append([lo, lo + size])
     return bs
 
@@ -139,9 +160,9 @@ def _point(rng, bounds, style=None, outside=False):
 
 def _form(rng, space, p):
     if space == "legacy":
-        f = rng.choice(["i", "i", "f", "f", "a"])
+        f = rng.choice(["i", "i", "f", "f", "a", "n", "ai", "l"])
     else:
-        f = rng.choice(["i", "l", "l", "t", "a"])
+        f = rng.choice(["i", "l", "l", "t", "a", "n", "ai"])
     if f == "i" and any(v % 16 for v in p):
         f = "f" if space == "legacy" else "l"
     return f
@@ -156,7 +177,7 @@ def _radius(rng, bounds, torus, pts, q):
             return max(0, r + rng.choice([0, 0, 0, 1, -1]))
         return r + rng.choice([0, 1])
     m = max(hi - lo for lo, hi in bounds)
-    return rng.choice([0, 8, 16, 24, 32, m // 2, m, rng.randint(0, m), rng.randint(0, m)])
+    return rng.choice([0, 8, 16, 24, 32, m // 2, m, rng.randint(0, m), rng.randint(0, m), 10 * m, 1000 * m])
 
 
 def _gen_history(rng, space, nd, torus, bounds, cap, nops, maxagents=9):
@@ -181,7 +202,7 @@ def _gen_history(rng, space, nd, torus, bounds, cap, nops, maxagents=9):
         if torus:
             # inside the closed bounds; now and then up to half a unit outside (still nearer than 1.5 periods)
             # (only for queries with ONE free point: agents are inside, so |d| <= size + 8 <= 1.5 size)
-            m = 8 if outside_ok and rng.random() < 0.2 else 0
+            m = min(8, min(hi - lo for lo, hi in bounds) // 2) if outside_ok and rng.random() < 0.2 else 0
             q = [min(max(x, lo - m), hi + m) for (lo, hi), x in zip(bounds, q)]
         elif rng.random() < 0.8:
             q = [min(max(x, lo - 16), hi + 16) for (lo, hi), x in zip(bounds, q)]
@@ -298,7 +319,7 @@ def _mk(rng, space, nops=None, maxagents=9):
     nd = 2 if space == "legacy" else rng.choice([2, 2, 3])
     torus = rng.random() < 0.5
     bounds = _bounds(rng, nd)
-    case = {"space": space, "bounds": bounds, "torus": torus}
+    case = {"space": space, "bounds": bounds, "torus": torus, "mix": rng.choice([0, 0, rng.randrange(16), 15])}
     cap = 0
     if space == "exp":
         cap = rng.choice([0, 1, 2, 3, 3, 10, 100])
@@ -344,7 +365,7 @@ def _big_growth_case(rng):
 
 
 def gen_cases(rng, tier):
-    n = 520 if tier == "quick" else 9000
+    n = 460 if tier == "quick" else 9000
     cases = []
     for i in range(n):
         space = "legacy" if i % 5 < 2 else "exp"
@@ -357,7 +378,7 @@ def gen_cases(rng, tier):
     for i in range(2 if tier == "quick" else 12):
         cases.append(_big_growth_case(rng))
     # oracle-only stream with arbitrary (non-dyadic) binary64 numbers: not evaluated by the Z-scaled model
-    for i in range(260 if tier == "quick" else 5000):
+    for i in range(220 if tier == "quick" else 5000):
         cases.append(_mk_float(rng, "legacy" if i % 5 < 2 else "exp"))
     return cases
 
@@ -485,7 +506,87 @@ def _to_py(p, form):
         return np.array([v / 16.0 for v in p])
     if form == "l":
         return [v / 16.0 for v in p]
+    if form == "n":                      # a tuple of NumPy scalars
+        return tuple(np.float64(v / 16.0) for v in p)
+    if form == "ai":                     # an integer ndarray (whole numbers only, else a float one)
+        if any(v % 16 for v in p):
+            return np.array([v / 16.0 for v in p])
+        return np.array([v // 16 for v in p], dtype=np.int64)
     raise ValueError(form)
+
+
+class _Variety:
+    """round-5 audit: population, argument and call-spelling variety of one history, switched by case['mix'] (bits):
+       1 heterogeneous / falsy agent classes (base, __bool__ False, subclass of subclass with a mixin after the base, __len__ 0)
+       2 keyword spelling of the query calls, NumPy-scalar / int radii and k, every query issued a second time
+       4 the SAME argument object handed in again for equal positions (shared between agents / calls)
+       8 a second, unrelated space + model alive in the same process and mutated in between; bounds as nested lists
+       (whatever the bits: no argument object handed in may be mutated by the call)"""
+
+    def __init__(self, case, fails, prefix):
+        self.mix = int(case.get("mix", 0))
+        self.fails, self.prefix = fails, prefix
+        self.memo, self.snap, self._cls = {}, [], None
+
+    def classes(self, base):
+        if self._cls is None:
+            class Mixin:                      # noqa: N801
+                tag = "mixin"
+
+            class Falsy(base):
+                def __bool__(self):
+                    return False
+
+            class Deep(Falsy, Mixin):         # subclass of a subclass, mixin AFTER the framework base in the MRO
+                pass
+
+            class Sized(base):
+                def __len__(self):
+                    return 0
+            self._cls = [base, Falsy, Deep, Sized]
+        return self._cls
+
+    def cls(self, base, label):
+        return self.classes(base)[label % 4] if self.mix & 1 else base
+
+    def arg(self, p, form):
+        import copy
+
+        key = (tuple(p), form)
+        if self.mix & 4 and key in self.memo:
+            o = self.memo[key]
+        else:
+            o = _to_py(p, form)
+            self.memo[key] = o
+        self.snap.append((o, copy.deepcopy(o)))
+        return o
+
+    def check_args(self, i, state):
+        import numpy as np
+
+        for o, was in self.snap:
+            same = np.array_equal(np.asarray(o), np.asarray(was)) and type(o) is type(was)
+            if not same and not state["dead"]:
+                self.fails.add(f"{self.prefix}/argument-mutated", i, f"an argument handed in as {was!r} was changed by the call to {o!r}")
+                state["dead"] = True
+        self.snap = []
+
+    def radius(self, r, i):
+        import numpy as np
+
+        if not self.mix & 2:
+            return r / 16.0
+        if r % 16 == 0 and i % 3 == 0:
+            return int(r // 16)
+        return np.float64(r / 16.0) if i % 3 == 1 else r / 16.0
+
+    def k(self, k, i):
+        import numpy as np
+
+        return np.int64(k) if self.mix & 2 and i % 2 else k
+
+    def kw(self):
+        return bool(self.mix & 2)
 
 
 def run_impl(case):
@@ -513,13 +614,22 @@ def _run_legacy(case):
     model = mesa.Model(seed=1)
     objs = {}
     fails = _Fail()
+    V = _Variety(case, fails, "C10/legacy")
+    decoy = None
+    if V.mix & 8:       # an unrelated second space + model in the same process, mutated in between
+        dm = mesa.Model(seed=2)
+        decoy = (ContinuousSpace(7, 9, True, -3, -2), [mesa.Agent(dm), mesa.Agent(dm)])
+        for j, o in enumerate(decoy[1]):
+            o.pos = None
+            decoy[0].place_agent(o, (j + 0.25, j - 0.5))
+        decoy[0].get_neighbors((0, 0), 3)
     obs = []
     shadow = {}     # the statement: label -> last assigned position (wrapped), for agents placed and not removed
     state = {"dead": False}
 
     def obj(a):
         if a not in objs:
-            o = mesa.Agent(model)
+            o = V.cls(mesa.Agent, a)(model)
             o.pos = None
             o._label = a
             objs[a] = o
@@ -569,6 +679,12 @@ def _run_legacy(case):
     for i, op in enumerate(case["ops"]):
         kind = op[0]
         before = None
+        V.check_args(i, state)
+        if decoy is not None and i in (3, 7):
+            decoy[0].move_agent(decoy[1][0], (i * 0.5, 1.0))
+            decoy[0].remove_agent(decoy[1][1])
+            decoy[0].place_agent(decoy[1][1], (6.5 - i, -1.5))
+            decoy[0].get_neighbors((1, 1), 2)
         try:
             if kind in ("place", "move"):
                 _, a, p, form = op
@@ -580,7 +696,7 @@ def _run_legacy(case):
                 before = view(i, check=False)
                 want = assigned(p)
                 try:
-                    (space.place_agent if kind == "place" else space.move_agent)(o, _to_py(p, form))
+                    (space.place_agent if kind == "place" else space.move_agent)(o, V.arg(p, form))
                 except Exception as e:  # noqa: BLE001
                     if want is None and type(e) is Exception:      # the kind of error, never its message
                         after = view(i, check=False)
@@ -624,8 +740,14 @@ def _run_legacy(case):
                 if len(q) != 2:
                     obs.append([-2])
                     continue
-                res = space.get_neighbors(_to_py(q, "f"), r / 16.0, ic)
+                qa = V.arg(q, "f")
+                res = space.get_neighbors(qa, V.radius(r, i), ic)
                 got = [o._label for o in res]
+                if V.kw():      # the same question again, spelled with keywords: the same answer
+                    again = [o._label for o in space.get_neighbors(pos=V.arg(q, "a"), radius=r / 16.0, include_center=ic)]
+                    if sorted(again) != sorted(got) and not state["dead"]:
+                        fails.add("C10/legacy/get_neighbors/second-call-differs", i, f"get_neighbors(x16 {q}, {r}, {ic}) answered {sorted(got)}, then - with keyword arguments and no change in between - {sorted(again)}")
+                        state["dead"] = True
                 if not state["dead"]:
                     exp = sorted(a for a, p in shadow.items()
                                  if _dist2(torus, bounds, p, q) <= r * r and (ic or _dist2(torus, bounds, p, q) > 0))
@@ -665,6 +787,13 @@ def _run_legacy(case):
                 obs.append([-1, 99, SEP] + view(i, check=False))
             except Exception:  # noqa: BLE001
                 obs.append([-1, 99])
+    V.check_args(len(case["ops"]), state)
+    if decoy is not None and not state["dead"]:
+        dpos = [tuple(o.pos) for o in decoy[1]]
+        n_ops = len(case["ops"])
+        want = [(3.5, 1.0), (-0.5, -1.5)] if n_ops > 7 else ([(1.5, 1.0), (3.5, -1.5)] if n_ops > 3 else [(0.25, -0.5), (1.25, 0.5)])
+        if dpos != want or len(decoy[0].agents) != 2:
+            fails.add("C10/legacy/decoy/cross-talk", len(case["ops"]) - 1, f"an unrelated second space reports {dpos}, expected {want}")
     return {"obs": obs, "failures": list(fails)}
 
 
@@ -687,10 +816,24 @@ def _run_exp(case):
     nd = len(bounds)
     torus = case["torus"]
     model = mesa.Model(seed=1)
-    space = ContinuousSpace(np.array([[lo / 16.0, hi / 16.0] for lo, hi in bounds]), torus=torus, random=model.random,
-                            n_agents=case["cap"])
-    live = {}        # label -> agent object currently in the space (driver's own bookkeeping of what it created)
     fails = _Fail()
+    V = _Variety(case, fails, "C10/exp")
+    dims = np.array([[lo / 16.0, hi / 16.0] for lo, hi in bounds])
+    if V.mix & 8:
+        if all(v % 16 == 0 for b in bounds for v in b):
+            dims = np.array([[lo // 16, hi // 16] for lo, hi in bounds], dtype=np.int64)      # an integer array
+        else:
+            dims = [[lo / 16.0, hi / 16.0] for lo, hi in bounds]                              # nested lists
+    dims_was = np.array(dims, dtype=float).copy()
+    space = ContinuousSpace(dims, torus=torus, random=model.random, n_agents=case["cap"])
+    decoy = None
+    if V.mix & 8:
+        dm = mesa.Model(seed=2)
+        dsp = ContinuousSpace(dims, torus=True, random=dm.random, n_agents=1)       # the SAME bounds object, another space
+        decoy = (dsp, [ContinuousSpaceAgent(dsp, dm) for _ in range(3)])
+        for j, o in enumerate(decoy[1]):
+            o.position = [float(dims_was[0][0]), float(dims_was[1][0])] + [float(d[0]) for d in dims_was[2:]]
+    live = {}        # label -> agent object currently in the space (driver's own bookkeeping of what it created)
     obs = []
     ops_for_model = []
     shadow = {}
@@ -773,6 +916,10 @@ def _run_exp(case):
     for i, op in enumerate(case["ops"]):
         kind = op[0]
         mop = list(op)
+        V.check_args(i, state)
+        if decoy is not None and i in (3, 7) and len(decoy[1]) > 1:
+            decoy[1].pop(0).remove()
+            decoy[0].get_agents_in_radius(decoy[1][0].position, 1)
         try:
             if kind in ("add", "set"):
                 _, a, p, form = op
@@ -782,15 +929,15 @@ def _run_exp(case):
                     ops_for_model.append(mop)
                     continue
                 if kind == "add":
-                    o = ContinuousSpaceAgent(space, model)
+                    o = V.cls(ContinuousSpaceAgent, a)(space, model)
                     o._label = a
                     live[a] = o
                     shadow[a] = want
-                    o.position = _to_py(p, form)
+                    o.position = V.arg(p, form)
                 else:
                     before = view(i, check=False)
                     try:
-                        live[a].position = _to_py(p, form)
+                        live[a].position = V.arg(p, form)
                     except ValueError as e:
                         if want is None:
                             after = view(i, check=False)
@@ -835,7 +982,12 @@ def _run_exp(case):
                     res = _rows([[a, d] for a, d in zip(labels, d2)])
                 elif kind == "radius":
                     r = op[2]
-                    agents, dists = space.get_agents_in_radius(_to_py(q, "a"), r / 16.0)
+                    agents, dists = space.get_agents_in_radius(V.arg(q, "a"), V.radius(r, i))
+                    if V.kw():
+                        ag2, ds2 = space.get_agents_in_radius(point=V.arg(q, "l"), radius=r / 16.0)
+                        if ([o._label for o in ag2], [float(d) for d in ds2]) != ([o._label for o in agents], [float(d) for d in dists]) and not state["dead"]:
+                            fails.add("C10/exp/get_agents_in_radius/second-call-differs", i, f"get_agents_in_radius(x16 {q}, {r}) answered differently when asked again with keyword arguments and nothing changed in between")
+                            state["dead"] = True
                     want = [a for a, p in shadow.items() if r >= 0 and _dist2(torus, bounds, p, q) <= r * r]
                     labels, d2 = check_pairs(i, "get_agents_in_radius", q, list(agents), list(dists), bad, want_set=want)
                     res = _rows([[a, d] for a, d in zip(labels, d2)])
@@ -862,7 +1014,12 @@ def _run_exp(case):
                     ops_for_model.append(mop)
                     continue
                 bad = []
-                agents, dists = space.get_k_nearest_agents(_to_py(q, "a"), k)
+                agents, dists = space.get_k_nearest_agents(V.arg(q, "a"), V.k(k, i))
+                if V.kw():
+                    ag2, ds2 = space.get_k_nearest_agents(point=V.arg(q, "t"), k=k)
+                    if sorted(float(d) for d in ds2) != sorted(float(d) for d in dists) and not state["dead"]:
+                        fails.add("C10/exp/get_k_nearest_agents/second-call-differs", i, f"get_k_nearest_agents(x16 {q}, {k}) returned other distances when asked again with keyword arguments and nothing changed in between")
+                        state["dead"] = True
                 labels, d2 = check_pairs(i, "get_k_nearest_agents", q, list(agents), list(dists), bad, k=k)
                 mop = [kind, q, k, labels]
                 obs.append(_rows([[a, d] for a, d in zip(labels, d2)]) + [SEP] + view(i))
@@ -995,6 +1152,15 @@ def _run_exp(case):
                 obs.append([-1, 99, SEP] + view(i, check=False))
             except Exception:  # noqa: BLE001
                 obs.append([-1, 99])
+    V.check_args(len(case["ops"]), state)
+    if not state["dead"]:
+        if not np.array_equal(np.array(dims, dtype=float), dims_was):
+            fails.add("C10/exp/argument-mutated", len(case["ops"]) - 1, f"the bounds handed to the constructor were changed: {dims!r}")
+        elif decoy is not None:
+            want_n = 3 - sum(1 for j in (3, 7) if len(case["ops"]) > j)
+            lo_pt = [float(d[0]) for d in dims_was]
+            if len(decoy[0].agents) != max(want_n, 1) or any([float(v) for v in o.position] != lo_pt for o in decoy[1]):
+                fails.add("C10/exp/decoy/cross-talk", len(case["ops"]) - 1, f"an unrelated second space sharing the bounds object holds {len(decoy[0].agents)} agents at {[list(o.position) for o in decoy[1]]}")
     return {"obs": obs, "failures": list(fails), "ops_for_model": ops_for_model}
 
 
@@ -1084,7 +1250,7 @@ def _mk_float(rng, space):
     nd = 2 if space == "legacy" else rng.choice([2, 2, 3])
     torus = rng.random() < 0.55
     bounds = _f_bounds(rng, nd)
-    case = {"space": space, "float": True, "bounds": bounds, "torus": torus}
+    case = {"space": space, "float": True, "bounds": bounds, "torus": torus, "mix": rng.choice([0, 1])}
     if space == "exp":
         case["cap"] = rng.choice([0, 1, 2, 3, 3, 10, 100])
     half = space == "legacy"
@@ -1240,6 +1406,7 @@ def _run_float(case):
                                 n_agents=case["cap"])
     K = f"C10/float/{sp}"
     fails = _Fail()
+    V = _Variety(case, fails, K)
     obs = []
     objs = {}        # legacy: label -> agent object (kept across removal); exp: label -> live agent
     shadow = {}      # label -> list of acceptable bit-exact values per axis (list of tuples)
@@ -1361,7 +1528,7 @@ def _run_float(case):
                 acc = acceptable(p)
                 if legacy:
                     if a not in objs:
-                        o = mesa.Agent(model)
+                        o = V.cls(mesa.Agent, a)(model)
                         o.pos = None
                         o._label = a
                         objs[a] = o
@@ -1376,7 +1543,7 @@ def _run_float(case):
                         obs.append([-2])
                         continue
                     if kind == "add":
-                        o = ContinuousSpaceAgent(space, model)
+                        o = V.cls(ContinuousSpaceAgent, a)(space, model)
                         o._label = a
                         objs[a] = o
                         shadow[a] = acc
@@ -1406,7 +1573,7 @@ def _run_float(case):
                 a = op[1]
                 if legacy:
                     if a not in objs:
-                        o = mesa.Agent(model)
+                        o = V.cls(mesa.Agent, a)(model)
                         o.pos = None
                         o._label = a
                         objs[a] = o
@@ -1636,18 +1803,32 @@ def nontrivial(case):
     return len(done) >= 3 and hit
 
 
-LEVEL_TEXT = ("Machine-checked Coq theorems over Gallina transcriptions of both continuous spaces: for every bounds vector "
-              "with positive extents, every dimension, torus flag, initial capacity and every history of add/place, "
-              "move, remove and queries, the concrete model (growable row store with capacity, index dictionaries, "
-              "compaction on removal; legacy lazily built and patched point cache) produces exactly the observations of "
-              "an abstract map agent -> last assigned (wrapped) position (C10_exp_refines, C10_legacy_refines); the internal "
-              "IndexError/KeyError paths are unreachable; radius answers are exactly the agents within the radius with "
-              "their distances, every legal k-nearest outcome has k distinct agents none farther than one left out, "
-              "distance is symmetric, heading/difference vectors have the squared length of the distance, wrapped "
-              "positions are in bounds, rejected assignments leave the state unchanged (C18_continuous_atomic_*). "
-              "The models are tied to the code by differential evaluation on random and targeted histories (T2); an "
-              "independent oracle states the property on the implementation and supplies the failing input.")
-LEVEL_NOTE = ("Theorems are about the models and about exact arithmetic on scaled integers; binary64 is only exercised on "
-              "dyadic inputs. Trusted: Coq kernel, the driver/observer, NumPy/SciPy primitives as modelled. No axioms.")
-TECHNIQUE = "Coq proof (invariants + refinement to an abstract map, closed under global context) + vm_compute correspondence"
+LEVEL_TEXT = ("Machine-checked Coq theorems (59, closed under the global context, with 12 Examples of non-vacuity) over Gallina transcriptions "
+              "of both continuous spaces: for every bounds vector with positive extents, every dimension, torus flag, initial "
+              "capacity and every history of create / place / move / remove / agent.remove() / remove_all_agents() and queries, "
+              "the concrete models (growable row store with capacity, index dictionary, compaction and re-indexing on removal, "
+              "model registry; legacy lazily built and patched point cache) produce exactly the observations of an abstract "
+              "insertion-ordered map agent -> last assigned (wrapped) position (C10_exp_refines, C10_legacy_refines, "
+              "C10_run_case_refines); invariants hold in every reachable state and the IndexError / KeyError paths are "
+              "unreachable; positions depend only on the operations naming the agent and not on capacity or growth steps "
+              "inserted anywhere; space.agents / model.agents have the order of insertion; removal from the model leaves the "
+              "space; radius answers (incl. include_center, radius 0, coincident agents, the agents= forms) are exact end to "
+              "end; every legal k-nearest outcome is sound and one always exists; the k+1 boundary of get_nearest_neighbors is "
+              "stated; distance is symmetric and the quotient metric, heading / difference vectors have its length, wrapped "
+              "positions are in bounds, rejected calls leave the whole state unchanged (C18_continuous_*).  Code-level T1: 17 "
+              "source functions / expressions are re-translated to Gallina on every run and proved equal to the model's "
+              "functions (15 bridge lemmas), 2 statement skeletons cover the glue, and the headline results are restated about "
+              "the translated code (C10_legacy_radius_exact_of_source, C10_heading_norm_of_source, ...).  T2 evaluates the "
+              "model against the implementation on ~520 (quick) / ~9 400 (thorough) dyadic histories; an independent oracle "
+              "states the property on the implementation, additionally on arbitrary binary64 histories (bit-exact positions), "
+              "and supplies the failing input.  Six defects of the unchanged tree (DESIGN rows 9-14) were found and are fixed "
+              "in /repo; none is left as a known finding.")
+LEVEL_NOTE = ("Theorems are about the models and about exact arithmetic on scaled integers; binary64 behaviour on non-dyadic "
+              "numbers, heterogeneous / falsy agent classes, keyword spellings, repeated queries, shared and unmutated argument "
+              "objects and a second space in the same process are covered by the oracle on the implementation only. Trusted: Coq "
+              "kernel, the pyexpr translator and its per-axis reading, the drivers / observers, NumPy / SciPy primitives as "
+              "modelled. No axioms.")
+TECHNIQUE = ("Coq proof (invariants + refinement to an abstract map, closed under the global context) + code-level T1 (source "
+             "functions translated on every run, bridge lemmas) + vm_compute correspondence + implementation-side oracle "
+             "(dyadic and arbitrary-binary64 streams)")
 DESIGN_REF = "DESIGN.md section 4, C10 (and the continuous-space sites of C18)"
